@@ -132,6 +132,19 @@ func vIntrinsic(name string) intrinsic {
 			t := a[0].(*Term)
 			return in.tb.BVConst(int(t.S.W), in.chooseValue(t, "vconc"))
 		}
+	case "vcap":
+		return func(in *Interp, fr *frame, a []Value) Value {
+			in.capOblig, in.capExplore = int64(concInt(a[0])), int64(concInt(a[1]))
+			return nil
+		}
+	case "vparam":
+		return func(in *Interp, fr *frame, a []Value) Value {
+			name, def := concStr(a[0]), concInt(a[1])
+			if v, ok := in.cfg.Params[name]; ok {
+				def = v
+			}
+			return in.tb.BVConst(64, uint64(int64(def)))
+		}
 	case "vsameArray":
 		// do two slices share their backing array cell at index 0? (aliasing probe)
 		return func(in *Interp, fr *frame, a []Value) Value {
